@@ -562,8 +562,7 @@ def rule_r1(ctx):
         defs = single_defs(f.node)
         # evals is bound by tuple assignment from np.linalg.eig
         guards = [g for g in _raising_ifs(f.node)
-                  if _depends_on(g.test, names, defs)
-                  or any(nm in dotted(g.test) for nm in names)]
+                  if _depends_on(g.test, names, defs)]
         npaths = 0
         bad = 0
         for conds, term in _paths_to_return(f.node.body):
